@@ -669,7 +669,26 @@ func (e *Exec) sxCall(env *SpecEnv, n *ast.CallExpr) SVal {
 		return SVal{T: fmt.Sprintf("(exists (%s) %s)", strings.Join(decls, " "), and(append(ranges, body)...)), Typ: boolT}
 	case "held":
 		id := e.lockID(env, n.Args[0])
+		if l := e.sxAddr(env, n.Args[0]); l != nil && len(env.bound) == 0 {
+			if lc, ok := e.w.discipline().classes[strings.TrimPrefix(l.Map, "F_")]; ok && lc.Rank > 0 {
+				// the class of a mutex field is a static fact about its address
+				e.sc.assume("true", fmt.Sprintf("(= (%s %s) %d)", e.lockclassFun(), id, lc.Rank))
+			}
+		}
 		return SVal{T: sel(e.hget(env.heap(), "G_held"), id), Typ: boolT}
+	case "locksBelow":
+		// locksBelow(m): every lock this goroutine holds is lower in the declared order than m's class
+		cls := ""
+		if l := e.sxAddr(env, n.Args[0]); l != nil {
+			cls = strings.TrimPrefix(l.Map, "F_")
+		}
+		lc, ok := e.w.discipline().classes[cls]
+		if !ok || lc.Rank == 0 {
+			return e.specErr(env, n, "locksBelow: lock class %q has no declared rank", cls)
+		}
+		f := e.lockclassFun()
+		q := e.sc.freshName("q.l")
+		return SVal{T: fmt.Sprintf("(forall ((%s Int)) (=> (select %s %s) (< (%s %s) %d)))", q, e.hget(env.heap(), "G_held"), q, f, q, lc.Rank), Typ: boolT}
 	case "heldx":
 		id := e.lockID(env, n.Args[0])
 		hx := e.heapMap("G_heldx", "(Array Int Bool)")
